@@ -199,3 +199,5 @@ func confV1(engine string, extra string) string {
 	}
 	return fmt.Sprintf(`{"version":"1","packages":[{"path":"db","engine":%q,"schema":"schema.sql","queries":"query.sql"%s}]}`, engine, extra)
 }
+
+func jsonUnmarshal(s string, v interface{}) error { return json.Unmarshal([]byte(s), v) }
